@@ -156,8 +156,17 @@ FCofB ==
 (* dummy projects); the built agents are renumbered s+ks, p+kp, l+kl.  Admissible matchings are the same up    *)
 (* to renaming; the numbers in the file are large.  (For 2-agent files hospitals are projects: kl = kp.)        *)
 ShiftSeq(q, d) == [i \in DOMAIN q |-> q[i] + d]
+(* SPLIT embedding: a NEGATIVE first component -ks inserts the ks dummy students AFTER the first built student,  *)
+(* so that the active students are numbered 1, ks+2, ks+3, ...: small and large numbers on the same lists.       *)
+SplitNum(x, ks) == IF x = 1 THEN 1 ELSE x + ks
+SplitFC(f, ks) ==
+    [ f EXCEPT !.ns = f.ns + ks,
+               !.prefs = [s \in 1 .. f.ns + ks |-> IF s = 1 THEN f.prefs[1] ELSE IF s <= ks + 1 THEN <<>> ELSE f.prefs[s - ks]],
+               !.ranks = [s \in 1 .. f.ns + ks |-> IF s = 1 THEN f.ranks[1] ELSE IF s <= ks + 1 THEN <<>> ELSE f.ranks[s - ks]],
+               !.lprefs = [l \in 1 .. f.nl |-> [i \in DOMAIN f.lprefs[l] |-> SplitNum(f.lprefs[l][i], ks)]] ]
 ShiftFC(f, sh) ==
     LET ks == sh[1]  kp == sh[2]  kl == IF f.na = 2 THEN sh[2] ELSE sh[3] IN
+    IF ks < 0 THEN SplitFC(f, 0 - ks) ELSE
     IF ks = 0 /\ kp = 0 /\ kl = 0 THEN f ELSE
     [ na |-> f.na, ns |-> f.ns + ks, np |-> f.np + kp, nl |-> f.nl + kl,
       prefs |-> [s \in 1 .. f.ns + ks |-> IF s <= ks THEN <<>> ELSE ShiftSeq(f.prefs[s - ks], kp)],
